@@ -494,17 +494,14 @@ ORDER_UNAWARE = {'PyDict_Keys', 'PyDict_Values', 'PyDict_Items', 'PyDict_Next'}
 
 
 def _order_unaware_paths(prog, f, root, depth=0, chain=()):
-    """calls (through repo helpers, depth <= 3) of concrete-dict enumeration APIs that are not
-    control dependent on an exact-dict type test"""
+    """calls (through repo helpers, depth <= 3) of concrete-dict enumeration APIs that can be
+    reached with an OrderedDict object: not cut off by an exact-dict / is-OrderedDict type test"""
     out = []
-    parent = None
     for c in calls_in(root):
         t = callee_func(prog, f, c)
         nm = c.callee_name()
         if t is None and nm in ORDER_UNAWARE:
-            if parent is None:
-                parent = enclosing_map(root)
-            if not _under_exact_dict_test(c, parent):
+            if not _cut_off_for_ordereddict(f, c):
                 out.append((chain, c))
         elif t is not None and t.body is not None and depth < 3 and not t.is_lambda and \
                 nm in ('DictKeys', 'SortedDictKeys', 'DictValues', 'DictItems'):
@@ -512,23 +509,41 @@ def _order_unaware_paths(prog, f, root, depth=0, chain=()):
     return out
 
 
-def _under_exact_dict_test(call, parent):
-    for a in ancestors(call, parent):
-        if a.kind == 'IfStmt':
-            cond = a.kids[0]
-            then = a.kids[1] if len(a.kids) > 1 else None
-            txt = cond.text(8)
-            exact = ('Py_IS_TYPE' in txt and 'PyDict_Type' in txt) or 'PyDict_CheckExact' in txt
-            not_od = ('OrderedDict' in txt)
-            in_then = then is not None and any(x is call for x in then.walk())
-            neg = txt.startswith('!(') or txt.startswith('!')
-            if exact and in_then and not neg:
-                return True
-            if exact and not in_then and neg:
-                return True
-            if not_od and (('!' in txt and in_then) or ('!' not in txt and not in_then)):
-                return True
-    return False
+def _type_test(cn):
+    """'is-ordereddict' / 'is-exact-dict' if the cond atom tests the object's exact type"""
+    if cn.kind != 'cond' or cn.ast is None:
+        return None
+    txt = cn.ast.text(8)
+    if ('Py_IS_TYPE' in txt and 'PyDict_Type' in txt) or 'PyDict_CheckExact' in txt:
+        return 'is-exact-dict'
+    if 'ImportOrderedDict' in txt and ('.is(' in txt or 'Py_IS_TYPE' in txt or '==' in txt):
+        return 'is-ordereddict'
+    return None
+
+
+def _cut_off_for_ordereddict(f, call):
+    """every path to `call` passes a type test on the edge that excludes OrderedDict objects"""
+    if f.body is None:
+        return False
+    cfg = cfg_of(f)
+    cn = cfg.cnode_of(call)
+    if cn is None:
+        return True      # statically discarded
+    tests = [(n, _type_test(n)) for n in cfg.nodes if _type_test(n)]
+    if not tests:
+        return False
+
+    def skip(v, w, lab):
+        for n, kind in tests:
+            if v == n.idx:
+                # edges an OrderedDict object can take: exact-dict test false, is-ordereddict true
+                if kind == 'is-exact-dict' and lab is True:
+                    return True
+                if kind == 'is-ordereddict' and lab is False:
+                    return True
+        return False
+    reach = cfg.reachable_from([cfg.entry.idx], skip)
+    return cn not in reach
 
 
 @rule('M7', floor=4, title='OrderedDict children are enumerated in the OrderedDict\'s own order')
